@@ -242,7 +242,7 @@ type packetConn struct {
 	lastPacket *packet
 	lastBuf    *bytes.Reader
 
-	// stores time.Time as Unix as Read maybe called concurrently with SetReadDeadline
+	// stores time.Time as Unix nanoseconds (0 means no deadline) as Read maybe called concurrently with SetReadDeadline
 	deadline      atomic.Int64
 	deadlineTimer *time.Timer
 	idleTimer     *time.Timer
@@ -250,7 +250,11 @@ type packetConn struct {
 
 // SetReadDeadline sets the deadline to wait for data from the underlying net.PacketConn.
 func (pc *packetConn) SetReadDeadline(t time.Time) error {
-	pc.deadline.Store(t.Unix())
+	if t.IsZero() {
+		pc.deadline.Store(0)
+	} else {
+		pc.deadline.Store(t.UnixNano())
+	}
 	if pc.deadlineTimer != nil {
 		pc.deadlineTimer.Reset(time.Until(t))
 	} else {
@@ -261,6 +265,14 @@ func (pc *packetConn) SetReadDeadline(t time.Time) error {
 
 // TODO: idle timeout should be configurable per server
 const udpAssociationIdleTimeout = 30 * time.Second
+
+// readDeadline returns the deadline set by SetReadDeadline (the zero time if there is none).
+func (pc *packetConn) readDeadline() time.Time {
+	if ns := pc.deadline.Load(); ns != 0 {
+		return time.Unix(0, ns)
+	}
+	return time.Time{}
+}
 
 func isDeadlineExceeded(t time.Time) bool {
 	return !t.IsZero() && t.Before(time.Now())
@@ -279,7 +291,7 @@ func (pc *packetConn) Read(b []byte) (n int, err error) {
 		return
 	}
 	// check deadline
-	if isDeadlineExceeded(time.Unix(pc.deadline.Load(), 0)) {
+	if isDeadlineExceeded(pc.readDeadline()) {
 		return 0, os.ErrDeadlineExceeded
 	}
 	// set or refresh idle timeout
@@ -311,7 +323,7 @@ func (pc *packetConn) Read(b []byte) (n int, err error) {
 			return
 		case <-pc.deadlineTimer.C:
 			// deadline may change during the wait, recheck
-			if isDeadlineExceeded(time.Unix(pc.deadline.Load(), 0)) {
+			if isDeadlineExceeded(pc.readDeadline()) {
 				return 0, os.ErrDeadlineExceeded
 			}
 			// next loop will run. Don't call Read as that will reset the idle timer.
